@@ -116,9 +116,11 @@ def oracle(e, idx):
             'dur': (lo, hi), 'agg': agg, 'total': float(cum[-1] - 1), 'cum_last': float(cum[-1])}
 
 
-def stats_for(q, e, idx, tmp=None, periods=252):
+def stats_for(q, e, idx, tmp=None, periods=252, alloc_lag=0):
     eq = pd.DataFrame({'Equity': list(e)}, index=list(idx))
-    alloc = pd.DataFrame({'EQ:A': [1.0] * len(e)}, index=list(idx))
+    # (the allocation frame may start later than the curve: weights exist only from the first rebalance on)
+    lag = min(alloc_lag, max(0, len(e) - 1))
+    alloc = pd.DataFrame({'EQ:A': [1.0] * (len(e) - lag)}, index=list(idx)[lag:])
     if periods == 252:
         js = q.JSONStatistics(eq.copy(), alloc, output_filename=tmp or 'statistics.json')
     else:
@@ -217,7 +219,10 @@ def run_case(case):
     fd, tmp = tempfile.mkstemp(prefix='vq_stats_', suffix='.json')
     os.close(fd)
     try:
-        js, s = stats_for(q, e, idx, tmp, P)
+        js, s = stats_for(q, e, idx, tmp, P, alloc_lag=case.get('alloc_lag', 0))
+        if len(s['equity_curve']) != n:
+            raise Violation('statistics cover %d observations, the equity curve has %d (allocations start %d rows later)' % (
+                len(s['equity_curve']), n, case.get('alloc_lag', 0)))
         # returns / cumulative returns
         got_r = [v for _, v in s['returns']]
         got_c = [v for _, v in s['cum_returns']]
@@ -258,6 +263,20 @@ def run_case(case):
         for k, v in o['agg']['monthly'].items():
             if not close(float(ma[k]), v, 1e-8, 1e-3):
                 raise Violation('reported monthly return %s = %r, expected %r' % (k, ma[k], v))
+        # the chart-ready lists carry the same numbers: [month 0-11, index of the year, percent] and percent per year
+        years_ = sorted(set(k[0] for k in o['agg']['monthly']))
+        hc = dict(((years_[int(yi)], int(mi) + 1), float(v)) for mi, yi, v in s['monthly_agg_returns_hc'])
+        if set(hc) != set(o['agg']['monthly']):
+            raise Violation('chart list of monthly returns covers %s, the curve has the months %s' % (
+                sorted(set(o['agg']['monthly']) - set(hc))[:4] or sorted(set(hc) - set(o['agg']['monthly']))[:4],
+                sorted(o['agg']['monthly'])[:3]))
+        for k, v in o['agg']['monthly'].items():
+            if not close(hc[k] / 100.0, v, 1e-8, 1e-3):
+                raise Violation('chart list monthly return %s = %r %%, expected %r %%' % (k, hc[k], v * 100))
+        yh = [float(v) for v in s['yearly_agg_returns_hc']]
+        ye = [o['agg']['yearly'][k] for k in sorted(o['agg']['yearly'])]
+        if len(yh) != len(ye) or any(not close(a_ / 100.0, b_, 1e-8, 1e-3) for a_, b_ in zip(yh, ye)):
+            raise Violation('chart list of yearly returns %s, expected %s (percent)' % (yh[:3], [x * 100 for x in ye[:3]]))
         # CAGR, Sharpe, Sortino
         cagr = o['cum_last'] ** (float(P) / n) - 1
         if not close(float(s['cagr']), cagr, 1e-9, 1.0):         # CAGR is (growth factor) - 1: noise is relative to 1 + CAGR
@@ -280,6 +299,13 @@ def run_case(case):
                 raise Violation('Sortino %r, sqrt(%s) x mean / population deviation of negative returns = %r' % (
                     float(s['sortino']), P, want))
             cls.append('sortino_checked')
+        if len(neg) == 1 and abs(math.fsum(r) / n) > 1e-12:
+            # a single losing day: the deviation of the negative returns is 0, the ratio is infinite (sign of the mean)
+            sv = float(s['sortino'])
+            if not (math.isinf(sv) and (sv > 0) == (math.fsum(r) > 0)):
+                raise Violation('Sortino %r with exactly one negative return (%r); mean / zero deviation is %sinf' % (
+                    sv, neg[0], '' if math.fsum(r) > 0 else '-'))
+            cls.append('single_negative_return')
         if not close(float(s['mean_returns']), math.fsum(r) / n, 1e-9, 1e-6):
             raise Violation('mean return %r != %r' % (float(s['mean_returns']), math.fsum(r) / n))
         if mx > 0 and sd >= 1e-6 * mx and not close(float(s['stdev_returns']), sd, 1e-7):
@@ -434,6 +460,7 @@ def cases(draw):
     return {'whole_units': whole, 'shape': shape, 'start': [d0.year, d0.month, d0.day], 'equity': e, 'benchmark': bench,
             'benchmark_lead': draw(st.sampled_from([0, 0, 5, 40])) if bench else 0,
             'panel': draw(st.sampled_from([False, False, False, True])),
+            'alloc_lag': draw(st.sampled_from([0, 0, 1, 21])),
             'periods': draw(st.sampled_from([252, 252, 52, 12, 365])), 'pow2': draw(st.sampled_from([1, -3, 10, 4])),
             'scale': draw(st.sampled_from([3.7, 0.01, 1e3, 1.1, 0.37]))}
 
